@@ -10,6 +10,11 @@ Local Open Scope N_scope.
 (** the [..8] slice of the digest never panics *)
 Theorem C18_digest_length : forall m, length (sha256 m) = 32%nat.
 Proof. exact sha256_length. Qed.
+(** the SHA-256 model pads every message to whole 64-byte blocks and keeps the message as prefix *)
+Theorem C18_padding_whole_blocks : forall m, (length (pad m) mod 64 = 0)%nat.
+Proof. exact pad_blocks. Qed.
+Theorem C18_padding_keeps_message : forall m, firstn (length m) (pad m) = m.
+Proof. exact pad_prefix. Qed.
 Theorem C18_disc_length : forall s, length (disc s) = 8%nat.
 Proof. exact disc_length. Qed.
 
